@@ -48,7 +48,7 @@ KNOWN_BAD = {
     26: ["top.rec rt:nilderef", "MONITOR: 1 registered deferred calls never ran; last site 262"],
     27: ["d 273 1 0", "d 272 1 0", "top.res 1", "MONITOR: 2 registered deferred calls never ran; last site 272"],
     29: ["CRASH", "p29.rec int:29", "p29.inner.d"],
-    30: ["p30.corrupted 20", "top.res 20"],
+    30: ["p30.corrupted true", "top.res 0"],
 }
 
 
@@ -388,7 +388,7 @@ def main():
             byfunc.setdefault(key, []).append((u, why, ref, got))
         for key in sorted(byfunc, key=lambda k: (isinstance(k, int) and k < 0, k)):
             u, why, ref, got = byfunc[key][0]
-            if u in umap and "boxed-panic-value" in avoid and all(only_recovered_values_differ(r_, g_) for (_, _, r_, g_) in byfunc[key]):
+            if u in umap and chk.is_open("C04-panic-value-not-gc-visible") and all(only_recovered_values_differ(r_, g_) for (_, _, r_, g_) in byfunc[key]):
                 # second line of defence for the open finding C04-panic-value-not-gc-visible (run-time fault values cannot be
                 # kept reachable by the program): the corruption needs a collection during unwinding, so it depends on the
                 # heap history; suppressed only if the unit alone, in a fresh process, matches the references
